@@ -1,18 +1,15 @@
 package main
 
 import (
-	"encoding/json"
 	"flag"
 	"fmt"
 	"os"
-	"os/exec"
 	"path/filepath"
 	"regexp"
 	"runtime"
 	"sort"
 	"strconv"
 	"strings"
-	"sync"
 	"time"
 
 	"gosym/sx"
@@ -117,12 +114,15 @@ func cmdCheck(args []string) int {
 	}()
 
 	// ---- plan jobs ----
+	known := loadKnown(filepath.Join(verifRoot, "known_findings.json"))
 	type wjob struct {
 		j Job
 		w float64
 	}
-	var jobs []wjob
+	var wjobs []wjob
+	pkgSet := map[string]bool{}
 	for _, h := range hs {
+		pkgSet[h.Pkg] = true
 		n := h.Shards
 		if *tier == "thorough" {
 			n = h.ShardsT
@@ -135,76 +135,23 @@ func cmdCheck(args []string) int {
 			dl = 3 * 3600
 		}
 		for i := 0; i < n; i++ {
-			jobs = append(jobs, wjob{Job{Pkg: h.Pkg, Fn: h.Fn, ShardI: i, ShardN: n, MaxPaths: h.MaxPaths, QTimeout: h.QTimeout, DeadlineS: dl}, float64(h.Weight)/float64(n) + 0.01})
+			wjobs = append(wjobs, wjob{Job{Pkg: h.Pkg, Fn: h.Fn, ShardI: i, ShardN: n, MaxPaths: h.MaxPaths, QTimeout: h.QTimeout, DeadlineS: dl,
+				Thorough: *tier == "thorough", Verbose: *verbose, KnownFor: known.labelMap(h.Fn)}, float64(h.Weight)/float64(n) + 0.01})
 		}
 	}
-	sort.SliceStable(jobs, func(i, j int) bool { return jobs[i].w > jobs[j].w })
-	if nw > len(jobs) {
-		nw = len(jobs)
+	// longest first
+	sort.SliceStable(wjobs, func(i, j int) bool { return wjobs[i].w > wjobs[j].w })
+	var jobs []Job
+	for _, wj := range wjobs {
+		jobs = append(jobs, wj.j)
 	}
-	bins := make([][]Job, nw)
-	load := make([]float64, nw)
-	pkgsOf := make([]map[string]bool, nw)
-	for i := range pkgsOf {
-		pkgsOf[i] = map[string]bool{}
+	var pkgDirs []string
+	for p := range pkgSet {
+		pkgDirs = append(pkgDirs, p)
 	}
-	for _, wj := range jobs {
-		best := 0
-		for b := range bins {
-			// loading a further package costs a few seconds: prefer bins that have it already
-			cost := func(b int) float64 {
-				c := load[b]
-				if !pkgsOf[b][wj.j.Pkg] && len(pkgsOf[b]) > 0 {
-					c += 4
-				}
-				return c
-			}
-			if cost(b) < cost(best) {
-				best = b
-			}
-		}
-		bins[best] = append(bins[best], wj.j)
-		load[best] += wj.w
-		pkgsOf[best][wj.j.Pkg] = true
-	}
+	sort.Strings(pkgDirs)
 
-	// ---- run workers ----
-	self, _ := os.Executable()
-	known := loadKnown(filepath.Join(verifRoot, "known_findings.json"))
-	var wg sync.WaitGroup
-	resFiles := make([]string, nw)
-	workerErr := make([]string, nw)
-	// warm the native build cache while exploring
-	nativePkgs := map[string]bool{}
-	for _, h := range hs {
-		if h.Native {
-			nativePkgs[h.Pkg] = true
-		}
-	}
-	for b := range bins {
-		jf := filepath.Join(work, fmt.Sprintf("jobs-%d.json", b))
-		rf := filepath.Join(work, fmt.Sprintf("res-%d.json", b))
-		resFiles[b] = rf
-		jb, _ := json.Marshal(bins[b])
-		os.WriteFile(jf, jb, 0o644)
-		wg.Add(1)
-		go func(b int) {
-			defer wg.Done()
-			cmd := exec.Command(self, "run", "-jobs", jf, "-tier", *tier, "-out", rf)
-			if *verbose {
-				cmd.Args = append(cmd.Args, "-v")
-				cmd.Stdout = os.Stderr
-			}
-			var eb strings.Builder
-			cmd.Stderr = &eb
-			if err := cmd.Run(); err != nil {
-				workerErr[b] = fmt.Sprintf("worker %d: %v: %s", b, err, tail(eb.String(), 600))
-			}
-		}(b)
-	}
-	wg.Wait()
-
-	// ---- merge ----
+	// ---- load once, explore in parallel (one interpreter copy per worker) ----
 	byFn := map[string]*merged{}
 	var order []string
 	for _, h := range hs {
@@ -213,82 +160,79 @@ func cmdCheck(args []string) int {
 	}
 	goVersion := ""
 	loadS := 0.0
-	for b, rf := range resFiles {
-		var rs []Result
-		data, err := os.ReadFile(rf)
-		if err == nil {
-			err = json.Unmarshal(data, &rs)
+	l, lerr := loadProgram(pkgDirs)
+	var results []Result
+	if lerr != nil {
+		for _, fn := range order {
+			byFn[fn].Problems = append(byFn[fn].Problems, "load: "+lerr.Error())
 		}
-		if err != nil || workerErr[b] != "" {
-			for _, j := range bins[b] {
-				byFn[j.Fn].Problems = append(byFn[j.Fn].Problems, "worker failed: "+workerErr[b])
+	} else {
+		goVersion, loadS = l.gover, l.loadS
+		results = runJobs(l, jobs, nw, func(r Result) {
+			if *verbose {
+				printResult(r)
 			}
+		})
+	}
+	for _, r := range results {
+		m := byFn[r.Job.Fn]
+		m.Shards = append(m.Shards, r)
+		if r.Error != "" {
+			m.Problems = append(m.Problems, r.Error)
 			continue
 		}
-		for _, r := range rs {
-			m := byFn[r.Job.Fn]
-			m.Shards = append(m.Shards, r)
-			if r.Error != "" {
-				m.Problems = append(m.Problems, r.Error)
-				continue
+		m.Paths += r.Paths
+		m.Completed += r.Completed
+		m.Nontrivial += r.Nontrivial
+		m.Decisions += r.Decisions
+		m.Queries += r.Queries
+		m.Sat += r.Sat
+		m.Unsat += r.Unsat
+		m.Unknown += r.Unknown
+		m.SolverS += r.SolverS
+		if r.WallS > m.WallS {
+			m.WallS = r.WallS
+		}
+		for l, a := range r.Asserts {
+			s := m.Asserts[l]
+			if s == nil {
+				s = &sx.AssertStat{}
+				m.Asserts[l] = s
 			}
-			goVersion = r.GoVersion
-			if r.LoadS > loadS {
-				loadS = r.LoadS
+			s.Reached += a.Reached
+			s.Proved += a.Proved
+			s.Violated += a.Violated
+			s.Known += a.Known
+			s.Undecided += a.Undecided
+		}
+		for k, v := range r.Covers {
+			m.Covers[k] += v
+		}
+		for k, v := range r.Aborted {
+			m.Aborted[k] += v
+		}
+		for k, v := range r.KnownHits {
+			m.KnownHits[k] += v
+		}
+		m.Violations = append(m.Violations, r.Violations...)
+		m.Witnesses = append(m.Witnesses, r.Witnesses...)
+		for _, f := range r.Funcs {
+			if i := strings.LastIndex(f, " x"); i > 0 {
+				n, _ := strconv.Atoi(f[i+2:])
+				m.Funcs[f[:i]] += n
 			}
-			m.Paths += r.Paths
-			m.Completed += r.Completed
-			m.Nontrivial += r.Nontrivial
-			m.Decisions += r.Decisions
-			m.Queries += r.Queries
-			m.Sat += r.Sat
-			m.Unsat += r.Unsat
-			m.Unknown += r.Unknown
-			m.SolverS += r.SolverS
-			if r.WallS > m.WallS {
-				m.WallS = r.WallS
-			}
-			for l, a := range r.Asserts {
-				s := m.Asserts[l]
-				if s == nil {
-					s = &sx.AssertStat{}
-					m.Asserts[l] = s
-				}
-				s.Reached += a.Reached
-				s.Proved += a.Proved
-				s.Violated += a.Violated
-				s.Known += a.Known
-				s.Undecided += a.Undecided
-			}
-			for k, v := range r.Covers {
-				m.Covers[k] += v
-			}
-			for k, v := range r.Aborted {
-				m.Aborted[k] += v
-			}
-			for k, v := range r.KnownHits {
-				m.KnownHits[k] += v
-			}
-			m.Violations = append(m.Violations, r.Violations...)
-			m.Witnesses = append(m.Witnesses, r.Witnesses...)
-			for _, f := range r.Funcs {
-				if i := strings.LastIndex(f, " x"); i > 0 {
-					n, _ := strconv.Atoi(f[i+2:])
-					m.Funcs[f[:i]] += n
-				}
-			}
-			for k, v := range r.Stubs {
-				m.Stubs[k] += v
-			}
-			for _, k := range r.Replaced {
-				m.Replaced[k] = true
-			}
-			if r.PathLimit {
-				m.Problems = append(m.Problems, fmt.Sprintf("path limit reached (shard %d/%d): bound exceeded, not a pass", r.Job.ShardI, r.Job.ShardN))
-			}
-			if r.TimedOut {
-				m.Problems = append(m.Problems, fmt.Sprintf("time limit reached (shard %d/%d): not a pass", r.Job.ShardI, r.Job.ShardN))
-			}
+		}
+		for k, v := range r.Stubs {
+			m.Stubs[k] += v
+		}
+		for _, k := range r.Replaced {
+			m.Replaced[k] = true
+		}
+		if r.PathLimit {
+			m.Problems = append(m.Problems, fmt.Sprintf("path limit reached (shard %d/%d): bound exceeded, not a pass", r.Job.ShardI, r.Job.ShardN))
+		}
+		if r.TimedOut {
+			m.Problems = append(m.Problems, fmt.Sprintf("time limit reached (shard %d/%d): not a pass", r.Job.ShardI, r.Job.ShardN))
 		}
 	}
 
@@ -334,7 +278,7 @@ func cmdCheck(args []string) int {
 	}
 	validated := 0
 	if !*noNative {
-		validated = runReplays(prop, *tier, work, replayDir, byFn, order)
+		validated = runReplays(prop, *tier, work, replayDir, byFn, order, l)
 	}
 
 	// ---- verdict ----
@@ -460,7 +404,7 @@ func compactInputs(m map[string]string) string {
 }
 
 func abortIsBenign(reason string, h Harness) bool {
-	for _, p := range []string{"assume false", "assume infeasible", "other shard", "assert failed (concrete)", "assert always fails", "assert failed (pinned)"} {
+	for _, p := range []string{"note:", "assume false", "assume infeasible", "other shard", "assert failed (concrete)", "assert always fails", "assert failed (pinned)"} {
 		if strings.HasPrefix(reason, p) {
 			return true
 		}
